@@ -507,6 +507,10 @@ func (pconf *Path) validate(
 			pconf.RTSPAnyPort = *pconf.SourceAnyPortEnable
 		}
 
+		if len(pconf.RTSPUDPSourcePortRange) != 2 {
+			return fmt.Errorf("'rtspUDPSourcePortRange' must contain two ports")
+		}
+
 	case strings.HasPrefix(pconf.Source, "rtmp://") ||
 		strings.HasPrefix(pconf.Source, "rtmps://"):
 		_, err := validateURL(pconf.Source)
